@@ -29,7 +29,7 @@ TrBRetry == H.b_retry_delay
 TrMRetry == H.m_retry_delay
 TrRetryNodes == H.retry_nodes
 TrGc == H.gc_depth
-Patience == 10          \* an unanswered request counts as "not retried" only after this many timer periods
+Patience == 6           \* an unanswered request counts as "not retried" only after this many timer periods
 
 VARIABLES l, div, ndiv, viol, nsteps,
           waitB, waitP,            \* observed: blocks told "missing" / "wait" and not yet looped back
@@ -39,6 +39,9 @@ hvars == <<waitB, waitP, breqd, bfirst, bwait, bretried, mreqd, mfirst, mwait, m
 tvars == <<vars, l, div, ndiv, viol, nsteps, hvars>>
 
 Zero(S) == [d \in S |-> 0]
+\* the report keeps the first 60 monitor failures (a set that grows with every record makes every later state larger)
+Lim(S) == IF Cardinality(viol) >= 60 THEN {} ELSE S
+
 HInit == /\ waitB = {} /\ waitP = {} /\ breqd = {} /\ bfirst = {} /\ bwait = Zero(Blocks) /\ bretried = {}
          /\ mreqd = {} /\ mfirst = {} /\ mwait = Zero(Batches) /\ mretried = {} /\ cleaned = FALSE
 TInit == Init /\ HInit /\ l = 1 /\ div = <<>> /\ ndiv = 0 /\ viol = {} /\ nsteps = 0
@@ -96,11 +99,12 @@ Fail(e, O, st2) ==   \* st2: the store after the move (driven by the harness, he
         ELSE {})
   \cup (IF "panic" \in DOMAIN e THEN {<<"C07.Panicked", l>>} ELSE {})
 
-\* at the end of a run: a request that stayed unanswered for Patience timer periods was re-sent to a peer other than the first target
+\* at the end of a run: no request stayed unanswered for Patience timer periods before it was re-sent to a peer other than the first target
+\* (bwait / mwait count the time an unanswered request waited before its first re-send elsewhere)
 EndFail ==
-  {<<"C07.UnansweredRequestRetried", l>> : d \in {x \in breqd : x \notin stored /\ bwait[x] >= Patience * (BlockTimer + BRetryDelay) /\ x \notin bretried}}
+  {<<"C07.UnansweredRequestRetried", l>> : d \in {x \in breqd : bwait[x] >= Patience * (BlockTimer + BRetryDelay)}}
   \cup (IF cleaned THEN {} ELSE
-        {<<"C13.UnansweredBatchRequestRetried", l>> : d \in {x \in mreqd : x \notin stored /\ mwait[x] >= Patience * (BatchTimer + MRetryDelay) /\ x \notin mretried}})
+        {<<"C13.UnansweredBatchRequestRetried", l>> : d \in {x \in mreqd : mwait[x] >= Patience * (BatchTimer + MRetryDelay)}})
 
 HistStep(e, O) ==
   LET a == e.mv.a
@@ -116,11 +120,11 @@ HistStep(e, O) ==
   /\ breqd' = breqd \cup {o.d : o \in breqs}
   /\ bfirst' = bfirst \cup {<<o.d, o.to>> : o \in {x \in breqs : x.d \notin breqd}}
   /\ bretried' = bretried \cup {o.d : o \in {x \in breqs : x.d \in breqd /\ <<x.d, x.to>> \notin bfirst}}
-  /\ bwait' = [d \in Blocks |-> IF d \in breqd /\ d \notin st2 THEN bwait[d] + dt ELSE bwait[d]]
+  /\ bwait' = [d \in Blocks |-> IF d \in breqd /\ d \notin st2 /\ d \notin bretried' THEN bwait[d] + dt ELSE bwait[d]]
   /\ mreqd' = mreqd \cup UNION {o.ds : o \in mreqs}
   /\ mfirst' = mfirst \cup UNION {{<<d, o.to>> : d \in o.ds \ mreqd} : o \in mreqs}
   /\ mretried' = mretried \cup UNION {{d \in o.ds : d \in mreqd /\ <<d, o.to>> \notin mfirst} : o \in mreqs}
-  /\ mwait' = [d \in Batches |-> IF d \in mreqd /\ d \notin st2 THEN mwait[d] + dt ELSE mwait[d]]
+  /\ mwait' = [d \in Batches |-> IF d \in mreqd /\ d \notin st2 /\ d \notin mretried' THEN mwait[d] + dt ELSE mwait[d]]
 
 TNext ==
   /\ l <= Len(Rec) /\ l' = l + 1
@@ -133,10 +137,10 @@ TNext ==
              /\ ndiv' = IF agree THEN ndiv ELSE ndiv + 1
              /\ div' = IF agree \/ Len(div) >= 20 THEN div
                        ELSE Append(div, [rec |-> l, kind |-> e.mv.a, want |-> [res |-> res', out |-> out'], got |-> [res |-> e.res, out |-> ObsCmp(e)]])
-          /\ viol' = viol \cup Fail(e, O, IF e.mv.a = "write" THEN stored \cup {e.mv.key} ELSE stored)
+          /\ viol' = viol \cup Lim(Fail(e, O, IF e.mv.a = "write" THEN stored \cup {e.mv.key} ELSE stored))
           /\ nsteps' = nsteps + 1
      ELSE IF e.t \in {"reset", "end"}
-     THEN /\ viol' = IF l = 1 THEN viol ELSE viol \cup EndFail
+     THEN /\ viol' = IF l = 1 THEN viol ELSE viol \cup Lim(EndFail)
           /\ stored' = {} /\ bpend' = {} /\ breq' = {} /\ bage' = [d \in Blocks |-> 0] /\ bleft' = BlockTimer /\ bsince' = 0
           /\ mpend' = {} /\ mrnd' = [d \in Batches |-> 0] /\ mage' = [d \in Batches |-> 0] /\ mround' = 0 /\ mleft' = BatchTimer /\ msince' = 0
           /\ ppend' = {} /\ out' = {} /\ res' = "init"
